@@ -182,7 +182,13 @@ unsafe impl<T, N: ArrayLength> GenericSequence<T> for Box<GenericArray<T, N>> {
             let ptr: *mut GenericArray<MaybeUninit<T>, N> = if layout.size() == 0 {
                 ptr::NonNull::dangling().as_ptr()
             } else {
-                alloc::alloc::alloc(layout).cast()
+                let ptr = alloc::alloc::alloc(layout);
+
+                if ptr.is_null() {
+                    alloc::alloc::handle_alloc_error(layout);
+                }
+
+                ptr.cast()
             };
 
             let mut builder = IntrusiveArrayBuilder::new(&mut *ptr);
